@@ -236,8 +236,10 @@ class GLibEventLoop(EventLoop):
         self._glib_idle_enabled = True
 
     def _glib_idle_callback(self):
-        for callback in self._idle_callbacks.values():
-            callback()
+        for handle, callback in list(self._idle_callbacks.items()):
+            # a callback removed by an earlier one in this pass is not called
+            if handle in self._idle_callbacks:
+                callback()
         self._glib_idle_enabled = False
         return False  # ask glib not to call again (or we would be called
 
